@@ -87,6 +87,25 @@ PB(nm, fam) ==
          {Pair(Callee(5, g), BoolSig(nm[2], nm[3]), <<Ret(CallN(g, <<x, y>>))>>, TBool, r) :
             r \in {"defs", "inline"}, y \in BA,
             x \in {Name("t"), Tup(<<Name(nm[2]), Name(nm[3])>>), Tup(<<Name(nm[3]), Name(nm[3])>>)}}
+    [] fam = "shadow" ->    \* an INNER definition whose formal / local has the NAME of a caller variable of another type
+                            \* (or of a caller variable that is not a constant); afterwards the caller uses its own variable
+         LET TT(n) == TTup([j \in 1..n |-> TBool])
+             inner(n) == FunDef(g, <<ArgT("t", TT(n))>>, <<Ret(BoolOpN("And", <<Sub(Name("t"), CI(0)), Un("Not", Sub(Name("t"), CI(n - 1)))>>))>>, TBool)
+             acts(m) == {Name(nm[2]), Sub(Name("t"), CI(0)), Sub(Name("t"), CI(m - 1))}
+             disp(m, n) == IF n = 2 THEN {Tup(<<x, y>>) : x \in acts(m), y \in acts(m)}
+                           ELSE {Tup(<<x, y, Name(nm[2])>>) : x \in acts(m), y \in acts(m)}
+             bodies(m, d) ==
+               { <<Assign("c", CB(FALSE)), For("e", Name("t"), <<Assign("c", BoolOpN("Or", <<Name("c"), Name("e")>>))>>),
+                   Ret(IfE(CallN(g, <<d>>), Un("Not", Name("c")), Name("c")))>>,
+                 <<Assign("c", CB(TRUE)), For("e", Name("t"), <<Assign("c", BoolOpN("And", <<Name("c"), Name("e")>>))>>),
+                   Ret(IfE(CallN(g, <<d>>), Name("c"), Un("Not", Name("c"))))>>,
+                 <<Ret(IfE(CallN(g, <<d>>), Cmp("Eq", Call1("len", Name("t")), CI(m)), Un("Not", Name(nm[2]))))>>,
+                 <<Ret(IfE(CallN(g, <<d>>), Un("Not", Sub(Name("t"), CI(m - 1))), Sub(Name("t"), CI(m - 1))))>> }
+             kin == FunDef(g, <<Arg("y", I2)>>, <<Assign("k", CI(1)), Ret(Bin("Add", Name("y"), Name("k")))>>, I2)
+         IN  UNION {{Pair(inner(mn[2]), <<ArgT("t", TT(mn[1])), Arg(nm[2], TBool)>>, b, TBool, "inline") :
+                       b \in UNION {bodies(mn[1], d) : d \in disp(mn[1], mn[2])}} : mn \in {<<3, 2>>, <<2, 3>>, <<4, 2>>}}
+             \cup {Pair(kin, <<Arg("k", I2), Arg(nm[2], I2)>>, <<Ret(Bin(op, CallN(g, <<x>>), Name("k")))>>, I2, "inline") :
+                     op \in {"Add", "BitXor", "Mult"}, x \in {Name("k"), Name(nm[2]), CI(2)}}
 
 \* oraclize(g, element): the oracle  v |-> g(v) == element ; callee names include "oracle" itself
 Orac == {[callee |-> Callee(k, g), route |-> "oraclize", element |-> e,
